@@ -72,15 +72,19 @@ class Setup:
     def fs(self, X, nodeSets=None):
         """X: (3,2) vertex coordinates (nodal coordinates for degree 1)"""
         _, FunctionSpace, _, _, Mesh, _ = _mods()
-        coords = X if self.degree == 1 else jnp.asarray(self.B) @ X
-        mesh = Mesh.Mesh(coords, self.conns, None, self.pe, self.pe1, None, nodeSets, None)
-        return FunctionSpace.construct_function_space_from_parent_element(mesh, self.shp, self.qr)
+        with jax.ensure_compile_time_eval():
+            coords = X if self.degree == 1 else jnp.asarray(self.B) @ X
+            mesh = Mesh.Mesh(coords, self.conns, None, self.pe, self.pe1, None, nodeSets, None)
+            return FunctionSpace.construct_function_space_from_parent_element(mesh, self.shp, self.qr)
 
     def dyn(self, coords, E, nu, rho, beta, gamma, nodeSets=None, fs=None):
         Mechanics, _, _, _, _, LinearElastic = _mods()
         fs = self.fs(coords, nodeSets) if fs is None else fs
         mat = LinearElastic.create_material_model_functions({'elastic modulus': E, 'poisson ratio': nu, 'density': rho})
-        return Mechanics.create_dynamics_functions(fs, 'plane strain', mat, Mechanics.NewmarkParameters(gamma=gamma, beta=beta))
+        # the factory may itself build tables with NumPy (parent-element shapes, quadrature rules) while a trace is active:
+        # constant sub-computations are kept eager, only what depends on the traced arguments is staged (DESIGN 3.1)
+        with jax.ensure_compile_time_eval():
+            return Mechanics.create_dynamics_functions(fs, 'plane strain', mat, Mechanics.NewmarkParameters(gamma=gamma, beta=beta))
 
 
 def _encoded(h):
@@ -222,6 +226,7 @@ def o2(h):
             return _box(i), Eq(gL, rhs, name='gradL_eq_gradSE_plus_M_Anew')
         c.prove('balance' + tag, spec, cap=cap, order=('core', 'nlsat'))
     run(Setup(), '', 60, False)
+    run(Setup(qdeg=1), '_1pt', 60, False)      # a rule below degree 2p: shows inconsistent quadrature between the energies
     if h.thorough():
         run(Setup(degree=2), '_P2', 60, True)
 
@@ -332,7 +337,7 @@ def o4(h):
     — symbolic vertices and density"""
     _encoded(h)
     h.bounds('one triangle with symbolic vertices (signed area > 0), rho > 0, V: all reals; '
-             'P1 with the 3-point rule (quick); P1 with the 1-point rule, straight-sided P2 with the 3-point and 6-point rules (thorough)')
+             'P1 with the 3-point and 1-point rules, straight-sided P2 with the 3-point rule (quick); P2 with the 6-point rule (thorough)')
     h.outside('element order > 2; spatially varying density (the code assumes homogeneous density); positive definiteness is not claimed for '
               'under-integrated masses (P1/1-point, P2/3-point: singular by construction)')
 
@@ -368,9 +373,10 @@ def o4(h):
                 return _box(i) + [nz], [Holds(v_lt(0.0, s0(o[2])), name='kinetic_energy_positive_definite')]
             c.prove('mass' + tag, spec_pd, cap=60, order=('nlsat', 'core'))
     run(Setup(), '', True)
+    # rules of degree < 2p (the repository's own choice is degree 2(p-1)): reported KE must still be the form of the SAME mass
+    run(Setup(qdeg=1), '_1pt', False)
+    run(Setup(degree=2), '_P2_3pt', False)
     if h.thorough():
-        run(Setup(qdeg=1), '_1pt', False)
-        run(Setup(degree=2), '_P2_3pt', False)
         run(Setup(degree=2, qdeg=4), '_P2_6pt', True)
 
 
@@ -384,13 +390,16 @@ BCSETS = {
     'pin0_pin1': [(0, 0), (0, 1), (1, 0), (1, 1)],
     'roller1x_pin2': [(1, 0), (2, 0), (2, 1)],
 }
-NODESETS = {'n0': onp.array([0]), 'n1': onp.array([1]), 'n2': onp.array([2])}
+# P2 only (6 nodes): 3 free dofs (two mid-side nodes and one vertex component), used for the reachability witness
+P2_THREE_FREE = [(n, k) for n in range(6) for k in range(2) if (n, k) not in ((1, 0), (3, 1), (5, 0))]
+NODESETS = {'n%d' % n: onp.array([n]) for n in range(6)}
 
 
 def _dofs(S, bcs):
     _, FunctionSpace, _, _, _, _ = _mods()
     fs0 = S.fs(jnp.asarray(REF), nodeSets=NODESETS)
-    return FunctionSpace.DofManager(fs0, 2, [FunctionSpace.EssentialBC(nodeSet='n%d' % n, component=k) for n, k in BCSETS[bcs]])
+    bc = P2_THREE_FREE if bcs == 'p2_three_free' else BCSETS[bcs]
+    return FunctionSpace.DofManager(fs0, 2, [FunctionSpace.EssentialBC(nodeSet='n%d' % n, component=k) for n, k in bc])
 
 
 def _step_fn(S, dm, fixed=None):
@@ -461,7 +470,7 @@ def _o5_corollary(h, bcs, n):
             note='cut-lemma chain: identity[%s] proved on the real terms; here the definitions are dropped' % bcs)
 
 
-def _o5_witness(h, S, tri, mat, bcs):
+def _o5_witness(h, S, tri, mat, bcs, tag=''):
     """reachability of the hypotheses on the real code: a solver model of 'balance on the free dofs at both ends, dt > 0,
     non-trivial energy and motion' for a concrete triangle/material, replayed on the real jitted functions"""
     E, nu, rho = MATERIALS[mat]
@@ -475,7 +484,7 @@ def _o5_witness(h, S, tri, mat, bcs):
     hyp += [s0(i['dt']) > 0, sym.toz(s0(E0)) >= 1, sym.toz(i['Un'][0]) - sym.toz(i['Uu'][0]) >= sym.rat(0.125), sym.toz(i['Vu'][0]) >= sym.rat(0.5)]
     hyp += [sym.toz(x) == sym.toz(y) for x, y in zip(flat(i['X']), flat(onp.asarray(REF)))]
     hyp += [s0(i['E']) == 1, s0(i['nu']) == 0, s0(i['rho']) == 1]      # unused inputs (closed over): pinned to keep the model small
-    name = 'hypotheses_reachable[%s/%s/%s]' % (tri, mat, bcs)
+    name = 'hypotheses_reachable%s[%s/%s/%s]' % (tag, tri, mat, bcs)
 
     def on_real(vals):
         R0, R1, R1b, e0, e1, _ = c.real(vals)
@@ -515,7 +524,7 @@ def o5(h):
     h.encoded(FunctionSpace.DofManager.create_field)
     sets = ['pin0_roller1y', 'free', 'all_y_fixed'] if not h.thorough() else list(BCSETS)
     h.bounds('one P1 triangle with SYMBOLIC vertices, symbolic E, nu, rho, dt (box: ' + BOX + '), free-dof state '
-             'Uu, Vu, Au, new displacement Un, time-independent essential values Ub: all reals; essential-bc sets: %s (0 to 6 free dofs); thorough: also one straight-sided P2 triangle (9 and 12 free dofs); '
+             'Uu, Vu, Au, new displacement Un, time-independent essential values Ub: all reals; essential-bc sets: %s (0 to 6 free dofs), 3-point rule; also P1 with the 1-point rule and one straight-sided P2 triangle with the 3-point rule (9 free dofs; thorough: 12); '
              'reachability witnesses of the hypotheses on concrete triangles %s x materials (E,nu,rho) %s'
              % (sets, sorted(TRIANGLES), sorted(MATERIALS.values())))
     h.outside('conservation over long histories follows by induction over this one-step identity (variable dt covered: dt is a free '
@@ -527,13 +536,17 @@ def o5(h):
     for b in sets:
         dm = _o5_identity(h, S, b)
         _o5_corollary(h, b, dm.get_unknown_size())
-    if h.thorough():
-        S2 = Setup(degree=2)
-        for b in ['pin0_roller1y', 'free']:
-            dm = _o5_identity(h, S2, b, tag='_P2')
-            _o5_corollary(h, 'P2/' + b, dm.get_unknown_size())
+    # rules of degree < 2p (P1 / 1 point, P2 / 3 points = the repository's 2(p-1) choice): every energy must use the caller's rule
+    S1, S2 = Setup(qdeg=1), Setup(degree=2)
+    for St, tag, bs in ((S1, '_1pt', ['pin0_roller1y'] + (['free'] if h.thorough() else [])),
+                        (S2, '_P2', ['pin0_roller1y'] + (['free'] if h.thorough() else []))):
+        for b in bs:
+            dm = _o5_identity(h, St, b, tag=tag)
+            _o5_corollary(h, tag[1:] + '/' + b, dm.get_unknown_size())
     wit = [('ref', 'E10_nu0_rho1', 'pin0_roller1y'), ('skew', 'E1_nu0.25_rho2', 'pin0_roller1y'), ('obtuse', 'E3.5_nu0.375_rho0.5', 'all_y_fixed')]
     if h.thorough():
         wit = [(t, m, 'pin0_roller1y') for t in TRIANGLES for m in MATERIALS] + [('obtuse', 'E3.5_nu0.375_rho0.5', 'all_y_fixed'), ('skew', 'E1_nu0.25_rho2', 'pin0_pin1')]
     for t, m, b in wit:
         _o5_witness(h, S, t, m, b)
+    _o5_witness(h, S1, 'skew', 'E1_nu0.25_rho2', 'all_y_fixed', tag='_1pt')
+    _o5_witness(h, S2, 'skew', 'E1_nu0.25_rho2', 'p2_three_free', tag='_P2')
